@@ -5,7 +5,7 @@ from checks.rcu_common import RcuBase
 
 class C13(RcuBase):
     pid = 'C13'
-    tags = ('C13',)
+    tags = ('C13', 'C07')
 
 
 DEF = C13()
